@@ -879,5 +879,10 @@ func init() {
 				runCase(t, r, "plain")
 			}
 		}
+		if uni != nil { // the universe may live on /dev/shm, which bin/check does not clean
+			uni.db.Close()
+			os.RemoveAll(uni.dir)
+			uni = nil
+		}
 	})
 }
